@@ -26,8 +26,8 @@ ASSUMPTIONS = ["set semantics for the offset lists (a repeated offset is not a C
 
 
 def plan(tier):
-    return {"cases": 1600 if tier == "quick" else 5000, "shards": 16,
-            "shard_budget_s": 300 if tier == "quick" else 1800}
+    return {"cases": 1600 if tier == "quick" else 30000, "shards": 16,
+            "shard_budget_s": 300 if tier == "quick" else 3300}
 
 
 def required(tier):
